@@ -128,6 +128,7 @@ func (clnt *Clnt) Rpc(tc *Fcall) (rc *Fcall, err error) {
 	r.Done = make(chan *Req)
 	err = clnt.Rpcnb(r)
 	if err != nil {
+		clnt.ReqFree(r)
 		return
 	}
 
